@@ -110,6 +110,7 @@ func checkC19(r *Run) propMeta {
 
 	// ---- R6 identity completeness -------------------------------------------------------------------
 	checkIdentityCompleteness(r, p, decls)
+	checkAllFieldsAgree(r, "C19-R8-source-counts-agree", p, "a completed graph that gained or lost only nodes (or only relationships) since the interrupted run is resumed as unchanged, and the dump mixes two states of the source")
 	checkBlankedFieldReads(r, p, decls)
 
 	r.Floor("C19-R1-publish-by-rename", 3)
